@@ -15,9 +15,12 @@ func main() {
 	defer r.Close()
 	// p hostMAC routerMAC lan bits frame spare  ->  full observation of Parse + accessors
 	r.Register("p", func(a []string) string { return pgen.Run(a).Full })
+	// m Frame -> exported methods and fields of packet.Frame by reflection (completeness of the accessor table)
+	r.Register("m", func(a []string) string { return pgen.FrameAPI() })
 	if r.Replayed() {
 		return
 	}
+	r.Do("m", "Frame")
 	pgen.Corpus(r)
 	rng := r.Rand()
 	cfgs := pgen.Cfgs()
